@@ -962,3 +962,50 @@ PROPS.update({
             "assumptions": ["compound family of the harness (harness/src/build.rs): Pair, Box1, Node, Tree, (a,b), Option",
                             "TLC, Json/IOUtils, harness projectors"]},
 })
+
+
+# ----------------------------------------------------------------------------- C21
+
+def plan_c21(ctx):
+    r = vlib.run_mc("C21_lterm", "MC_LTerm", {"Emit": "TRUE", "Slots": "32"}, ["Laws", "EmitCase"], None, workers=12)
+    ctx["mc"].append(r)
+    for n, c in enumerate(r["cases"]):
+        case = {"id": "C21-m-%d" % n, "kind": "termop", "op": c["op"], "t": c["t"], "u": c["u"], "xs": c["xs"], "i": c["i"],
+                "vars": [1, 2]}
+        if case["t"] == ["none"]:
+            case["t"] = ["nil"]
+            case["tnone"] = True
+        add(ctx, [case])
+    # random deeper terms: equality / hash / iteration / display on terms of depth <= 4
+    rng = ctx["rng"]
+    for i in range(T(ctx, 1500, 30000)):
+        tg = gen.TermGen(rng, [1, 2], compounds=True)
+        tg2 = gen.TermGen(rng, [1, 2], compounds=False, syms=False)
+        t = tg.term(rng.randint(0, 4))
+        r0 = rng.random()
+        if r0 < 0.5:
+            u = t if rng.random() < 0.3 else tg.term(rng.randint(0, 4))
+            add(ctx, [{"id": "C21-r-%d" % i, "kind": "termop", "op": "eq", "t": t, "u": u, "xs": [], "i": 0, "vars": [1, 2]}])
+        else:
+            op = rng.choice(["iter", "head", "tail", "is_list", "is_empty", "is_improper", "contains", "display", "extend",
+                             "iter_mut_set"])
+            tt = tg2.term(rng.randint(0, 3)) if op == "display" else t
+            xs = [tg.atom()] if op in ("contains", "iter_mut_set") else ([tg.atom() for _ in range(rng.randint(0, 2))] if op == "extend" else [])
+            if op == "extend":
+                tt = ["list", [tg.term(1) for _ in range(rng.randint(0, 3))]]
+            add(ctx, [{"id": "C21-r-%d" % i, "kind": "termop", "op": op, "t": tt, "u": ["none"], "xs": xs, "i": 0,
+                       "vars": [1, 2]}])
+
+
+PROPS.update({
+    "C21": {"plan": plan_c21, "reasons": {"term_eq_wrong", "term_eq_not_reflexive", "equal_terms_hash_differently",
+                                          "term_op_wrong", "panic"},
+            "rule": "exhaustive: every pair of the MC_LTerm universe (literals of all four kinds incl. 1 / \"1\" / '1', two "
+                    "variables, proper and improper lists, nested lists, a compound) under ==, and every list operation on "
+                    "every term / element sequence of the scope; random: terms of depth <= 4.  The harness asserts only the "
+                    "hash law (equal => same DefaultHasher value and HashMap lookup); everything else is judged by TLC.  "
+                    "Non-trivial: every case.",
+            "nontrivial": lambda c: True,
+            "assumptions": ["extend/index on improper lists or out of range are outside the scope (they panic by contract)",
+                            "TLC, Json/IOUtils, harness projectors"]},
+})
